@@ -195,6 +195,22 @@ func c07NamedRule(d *machDef, prio string, i int) []string {
 	return r[:3+1]
 }
 
+// an adapter that fills the rule lists directly (as database adapters that bypass
+// persist.LoadPolicyArray do): the stored order reaches SortPoliciesByPriority unsorted
+type c07DirectFill struct{ *recAdapter }
+
+func (a *c07DirectFill) LoadPolicy(m model.Model) error {
+	for _, x := range a.Content {
+		ast := m[x.Pt[:1]][x.Pt]
+		if ast == nil {
+			continue
+		}
+		ast.Policy = append(ast.Policy, append([]string(nil), x.Rule...))
+		ast.PolicyMap[strings.Join(x.Rule, ",")] = len(ast.Policy) - 1
+	}
+	return nil
+}
+
 func c07Perms(n, k int, f func([]int)) {
 	used := make([]bool, n)
 	cur := make([]int, 0, k)
@@ -301,6 +317,49 @@ func init() {
 			id := fmt.Sprintf("c07.load.%d", i)
 			c07Case(c, id, content, []mOp{{Kind: "load"}, {Kind: "add", Pt: "p", R1: [][]string{{"1", "erin", "data1", "read", "allow"}}}}, true)
 			c.NonTrivial(id)
+		}
+		// (b') 13..20 rules with many ties filled in directly by the adapter: the post-load sort
+		// must be stable (equal priorities keep their stored order); <= 20 rules: the model's
+		// insertion sort is exactly Go's stable sort
+		nd := 40
+		if c.Thorough() {
+			nd = 800
+		}
+		for i := 0; i < nd; i++ {
+			k := 13 + c.Rng.Intn(8)
+			var content []prule
+			for j := 0; j < k; j++ {
+				content = append(content, prule{"p", []string{strconv.Itoa(1 + c.Rng.Intn(3)), fmt.Sprintf("s%d", j), "data1", "read", []string{"allow", "deny"}[c.Rng.Intn(2)]}})
+			}
+			id := fmt.Sprintf("c07.directfill.%d", i)
+			conf := machPriority
+			var cs []string
+			for _, x := range content {
+				cs = append(cs, L(Q(x.Pt), QL(x.Rule)))
+			}
+			ops := []mOp{{Kind: "load"}}
+			c.Case(id, fmt.Sprintf("(cfg %s) (flags 0 0 none) (content %s) (obs res (pol p)) (ops %s)",
+				strings.TrimSuffix(strings.TrimPrefix(conf.Sx(), "("), ")"), strings.Join(cs, " "),
+				strings.TrimSuffix(strings.TrimPrefix(opsSx(ops), "("), ")")))
+			m := newMach(conf, false, false, "none", content)
+			m.E.SetAdapter(&c07DirectFill{m.A})
+			res := m.apply(ops[0])
+			c.Obs(id, "0.res", res)
+			pol, _ := m.E.GetNamedPolicy("p")
+			c.Obs(id, "0.pol.p", rulesKey(pol))
+			// stability on the implementation alone: among equal priorities the stored order
+			last := map[string]int{}
+			for _, r := range pol {
+				var idx int
+				fmt.Sscanf(r[1], "s%d", &idx)
+				if prev, ok := last[r[0]]; ok && idx < prev {
+					c.Direct(id, "the post-load priority sort is not stable: rules of equal priority changed their stored order", rulesKey(pol))
+					break
+				}
+				last[r[0]] = idx
+			}
+			c.NonTrivial(id)
+			c.Count("directfill-load")
 		}
 		// (c) subject hierarchy
 		nodes := []string{"n0", "n1", "n2"}
@@ -445,7 +504,7 @@ func init() {
 		// (c') subject priority with a domain column: the depth of a rule's subject is its depth
 		// in the rule's OWN domain.  Per domain a random forest (at most one parent per name, no
 		// cycle: the result does not depend on Go's map order), rules of both domains interleaved.
-		nd := 60
+		nd = 60
 		if c.Thorough() {
 			nd = 1500
 		}
